@@ -244,12 +244,12 @@ func (b *bare) run(in Input) (obs Obs) {
 				env.VerifC08CancelPending()
 			case "FORCE_ERROR":
 				// the sequence of the workflow-state watcher (subscribeToWfState)
-				opErr = env.TryTransition(mkTransition("GO_ERROR", op, rec))
+				opErr = env.TryTransition(anyTransition("GO_ERROR", op, rec, env))
 				if opErr != nil && env.CurrentState() != "ERROR" {
 					env.VerifC08SetState("ERROR")
 				}
 			default:
-				opErr = env.TryTransition(mkTransition(op.Ev, op, rec))
+				opErr = env.TryTransition(anyTransition(op.Ev, op, rec, env))
 			}
 		}()
 		select {
@@ -297,6 +297,49 @@ func waitQuiet(rec *Recorder) {
 		}
 		time.Sleep(200 * time.Microsecond)
 	}
+}
+
+// realTransition: the package's own transition object for the event, run against a stand-in task
+// manager (a buffered message channel); the answer to its request is delivered the way the
+// environment manager does it.
+func realTransition(name string, op *Op, rec *Recorder, env *environment.Environment) environment.Transition {
+	taskman := &task.Manager{MessageChannel: make(chan *task.TaskmanMessage, 1)}
+	var t environment.Transition
+	switch name {
+	case "START_ACTIVITY":
+		t = environment.NewStartActivityTransition(taskman)
+	case "STOP_ACTIVITY":
+		t = environment.NewStopActivityTransition(taskman)
+	case "GO_ERROR":
+		t = environment.NewGoErrorTransition(taskman)
+	default:
+		return mkTransition(name, op, rec)
+	}
+	return environment.VerifC10RealTransition{T: t, Before: func() {
+		rec.add(Rec{Kind: "B"})
+		if name == "GO_ERROR" {
+			return // sends nothing to the task manager
+		}
+		go func() {
+			select {
+			case <-taskman.MessageChannel:
+			case <-time.After(10 * time.Second):
+				return
+			}
+			if op.Body == "fail" {
+				env.VerifC10TasksStateChanged(errors.New(bodyErrText))
+			} else {
+				env.VerifC10TasksStateChanged(nil)
+			}
+		}()
+	}}
+}
+
+func anyTransition(name string, op *Op, rec *Recorder, env *environment.Environment) environment.Transition {
+	if op.Real {
+		return realTransition(name, op, rec, env)
+	}
+	return mkTransition(name, op, rec)
 }
 
 func mkTransition(name string, op *Op, rec *Recorder) environment.VerifC08Transition {
